@@ -15,9 +15,12 @@ import (
 
 	"github.com/PowerDNS/lightningstream/snapshot"
 
+	"github.com/PowerDNS/lightningstream/config"
+
 	"verif/bucket"
 	"verif/inst"
 	"verif/lmdbx"
+	"verif/lsx"
 	"verif/runner"
 	"verif/sched"
 	"verif/wire"
@@ -31,6 +34,9 @@ var Points = []string{
 }
 
 var Kinds = []string{"insert", "overwrite", "delete", "newdbi", "rewrite-same"}
+
+// ExtraKinds are change kinds outside the base enumeration: "empty-dbi" deletes the last key of a DBI.
+var ExtraKinds = []string{"empty-dbi"}
 
 type Scn struct {
 	Native     bool   `json:"native"`
@@ -48,6 +54,10 @@ type Scn struct {
 	// LoadCapture: the earlier application commit is made at loop.top while the staged remote snapshot is
 	// already downloaded and waiting, so that LoadOnce itself captures it (shadow) and the following SendOnce is empty
 	LoadCapture bool `json:"load_capture,omitempty"`
+	// Sweeper: the tomb sweeper is enabled in the configuration (it never runs: first interval 1 h), which turns on
+	// the stale-deletion cutoff of merges; Remote "staletomb" then stages a snapshot whose only content is a deletion
+	// marker older than the retention for a key the instance does not have: the merge transaction stays empty
+	Sweeper bool `json:"sweeper,omitempty"`
 }
 
 type Inj struct {
@@ -79,6 +89,9 @@ func (s Scn) ID() string {
 	}
 	if s.LoadCapture {
 		id += "-loadcapture"
+	}
+	if s.Sweeper {
+		id += "-sweeper"
 	}
 	for _, e := range s.Extra {
 		id += fmt.Sprintf("+%s#%d-%s", e.Point, e.Nth, e.Kind)
@@ -132,6 +145,8 @@ func (w *world) commit(kind, at string, seq int) {
 		aw.DBI, aw.Key, aw.Val = fmt.Sprintf("dnew%d", seq), "first", val
 	case "rewrite-same":
 		aw.Key, aw.Val = "same", "same-value"
+	case "empty-dbi":
+		aw.DBI, aw.Key, aw.Del = "solo", "only-key", true
 	}
 	w.s.Note(w.a.Name, "APP BEGIN "+kind+" at "+at)
 	id, err := lmdbx.Update(w.a.Env, func(txn *lmdb.Txn) error {
@@ -154,7 +169,9 @@ func (w *world) commit(kind, at string, seq int) {
 }
 
 // stageRemote puts a snapshot of instance "r" into the bucket.
-func (w *world) stageRemote(news bool) string {
+func (w *world) stageRemote(news bool) string { return w.stageRemoteKind(news, false) }
+
+func (w *world) stageRemoteKind(news, staleTomb bool) string {
 	w.rseq++
 	ts := time.Now()
 	old := uint64(978307200000000000) + uint64(w.rseq) // 2001: cannot win against anything written now
@@ -168,6 +185,10 @@ func (w *world) stageRemote(news bool) string {
 	}
 	if news {
 		d.Entries = append(d.Entries, wire.KV{Key: []byte(fmt.Sprintf("rnew-%03d", w.rseq)), Val: []byte("remote"), TS: old})
+	}
+	if staleTomb {
+		// only a deletion marker from 2001 for a key nobody here has (retention 1 day)
+		d.Entries = []wire.KV{{Key: []byte(fmt.Sprintf("gone-%03d", w.rseq)), TS: old, Flags: 1}}
 	}
 	sort.Slice(d.Entries, func(i, j int) bool { return string(d.Entries[i].Key) < string(d.Entries[j].Key) })
 	s.DBIs = []wire.DBI{d}
@@ -278,7 +299,13 @@ func (w *world) checkC09(when string) {
 func RunScn(scn Scn, env *runner.Env, res *runner.Result, which string) {
 	w := &world{scn: scn, b: bucket.New(), s: sched.New(), res: res}
 	defer w.s.Close()
-	a, err := inst.New(env.Dir("loop"), w.b, dbName, "a", inst.Opt{Native: scn.Native, Padding: scn.Padding})
+	opt := inst.Opt{Native: scn.Native, Padding: scn.Padding}
+	if scn.Sweeper {
+		conf := lsx.FastConfig("a")
+		conf.Sweeper = config.Sweeper{Enabled: true, RetentionDays: 1, Interval: time.Hour, FirstInterval: time.Hour, LockDuration: time.Second, ReleaseDuration: time.Second}
+		opt.Conf = &conf
+	}
+	a, err := inst.New(env.Dir("loop"), w.b, dbName, "a", opt)
 	if err != nil {
 		res.Verdict, res.Msg = runner.Inconclusive, err.Error()
 		return
@@ -298,7 +325,11 @@ func RunScn(scn Scn, env *runner.Env, res *runner.Result, which string) {
 				return err
 			}
 		}
-		return nil
+		// a DBI with a single key (change kind "empty-dbi" deletes it)
+		if scn.Native {
+			return inst.NativePut(txn, "solo", []byte("only-key"), uint64(time.Now().UnixNano()), false, []byte("v"))
+		}
+		return lmdbx.Put(txn, "solo", 0, []byte("only-key"), []byte("v"))
 	})
 	if err != nil {
 		res.Verdict, res.Msg = runner.Inconclusive, err.Error()
@@ -346,7 +377,7 @@ func RunScn(scn Scn, env *runner.Env, res *runner.Result, which string) {
 	switch {
 	case scn.LoadCapture:
 		// stage first, then commit W1 at loop.top once the blob has been downloaded
-		stagedName = w.stageRemote(scn.Remote == "news")
+		stagedName = w.stageRemoteKind(scn.Remote == "news", scn.Remote == "staletomb")
 		w.s.ArmAt("a", "loop.top", 1, func(ev sched.Event) {
 			dl := time.Now().Add(2 * time.Second)
 			for time.Now().Before(dl) {
@@ -367,7 +398,7 @@ func RunScn(scn Scn, env *runner.Env, res *runner.Result, which string) {
 			w.commit("insert", "loop.top(before load)", 1000+seq)
 		})
 	case scn.AfterLoad && scn.Remote != "none":
-		stagedName = w.stageRemote(scn.Remote == "news")
+		stagedName = w.stageRemoteKind(scn.Remote == "news", scn.Remote == "staletomb")
 		w.s.ArmAt("a", "load.done", 1, func(ev sched.Event) { armMain() })
 		if scn.Prewrite {
 			seq++
@@ -384,6 +415,8 @@ func RunScn(scn Scn, env *runner.Env, res *runner.Result, which string) {
 			w.stageRemote(false)
 		case "news":
 			w.stageRemote(true)
+		case "staletomb":
+			w.stageRemoteKind(false, true)
 		}
 	}
 	select {
